@@ -118,6 +118,9 @@ func checkIndex(fc *flowCtx, x, idx ssa.Value, at ssa.Instruction) (bool, bool, 
 	if ok, why := fc.indexBelowLen(idx, x, at); ok && nonNegative(idx, 0) {
 		return true, true, why + ", non-negative induction variable"
 	}
+	if ok, why := fc.indexBelowLen(idx, x, at); ok && fc.factNonNeg(idx, at) {
+		return true, true, why + ", and a dominating test that it is not negative"
+	}
 	// idx < K for a constant K (a loop over a fixed-size array) and len(x) >= K
 	if k, ok := fc.constUpperBound(idx, at); ok && nonNegative(idx, 0) {
 		if arr, isArr := xt.(*types.Array); isArr && k <= arr.Len() {
@@ -854,6 +857,18 @@ func rulePNILmon(p *Program, r *Reporter) {
 				if mt, ok := lk.X.Type().Underlying().(*types.Map); ok && isNamed(mt.Elem(), repoMod+"/ovsdb", "MonitorRequest") {
 					if _, isPtr := mt.Elem().(*types.Pointer); isPtr {
 						return "request[table]"
+					}
+				}
+			}
+			// for table, request := range requests: the element of a decoded map of requests
+			if ex, isEx := v.(*ssa.Extract); isEx && ex.Index == 2 {
+				if nx, isNext := ex.Tuple.(*ssa.Next); isNext {
+					if rg, isRg := nx.Iter.(*ssa.Range); isRg {
+						if mt, ok := rg.X.Type().Underlying().(*types.Map); ok && isNamed(mt.Elem(), repoMod+"/ovsdb", "MonitorRequest") {
+							if _, isPtr := mt.Elem().(*types.Pointer); isPtr {
+								return "request of a ranged table"
+							}
+						}
 					}
 				}
 			}
